@@ -145,6 +145,49 @@ def make_py(yp, key, style, yv, events):
             def epred(self_, arg1, arg2):
                 return body((arg1, arg2))
         return types.MethodType(epred, yp), None
+    if style == 'inferred-positional-only':
+        # parameters declared positional-only (def f(a, b, /)): still parameters, still counted
+        if n == 0:
+            def ppred():
+                return body(())
+        elif n == 1:
+            def ppred(arg1, /):
+                return body((arg1,))
+        else:
+            def ppred(arg1, /, arg2):
+                return body((arg1, arg2))
+        return ppred, None
+    if style == 'inferred-partial':
+        # functools.partial with the first parameter already given: the remaining ones are the arity
+        import functools
+
+        def full(tag, *args):
+            return body(args)
+        if n == 0:
+            def full(tag):
+                return body(())
+        elif n == 1:
+            def full(tag, arg1):
+                return body((arg1,))
+        else:
+            def full(tag, arg1, arg2):
+                return body((arg1, arg2))
+        return functools.partial(full, 'tag'), None
+    if style == 'inferred-callable-object':
+        # an object with __call__ (its signature does not count self)
+        if n == 0:
+            class Obj:
+                def __call__(self):
+                    return body(())
+        elif n == 1:
+            class Obj:
+                def __call__(self, arg1):
+                    return body((arg1,))
+        else:
+            class Obj:
+                def __call__(self, arg1, arg2):
+                    return body((arg1, arg2))
+        return Obj(), None
     if style == 'inferred-method':
         # a bound method: the function object behind it has one more parameter (self)
         class Holder:
@@ -276,10 +319,10 @@ def check_program(acc, index, clauses, goal, dyn_extra, label):
         exp = [anonymize(a, anon_ix) for a in exp]
     subsets = [s for r in range(1, len(used) + 1) for s in itertools.combinations(used, r)]
     for sub in subsets:
-        for style in ('inferred', 'explicit', 'explicit-generic', 'variadic', 'inferred-method', 'inferred-decorated', 'inferred-cursor', 'variadic-other-negative', 'inferred-engine-method'):
+        for style in ('inferred', 'explicit', 'explicit-generic', 'variadic', 'inferred-method', 'inferred-decorated', 'inferred-cursor', 'variadic-other-negative', 'inferred-engine-method', 'inferred-positional-only', 'inferred-partial', 'inferred-callable-object'):
             for yv in (False, True):
                 del OPEN_CURSORS[:]
-                if style in ('inferred-method', 'inferred-decorated', 'inferred-cursor', 'variadic-other-negative', 'inferred-engine-method') and yv is False:
+                if style in ('inferred-method', 'inferred-decorated', 'inferred-cursor', 'variadic-other-negative', 'inferred-engine-method', 'inferred-positional-only', 'inferred-partial', 'inferred-callable-object') and yv is False:
                     continue
                 acc.n['evaluations'] += 1
                 acc.n['validated'] += 1
